@@ -12,6 +12,8 @@ def literal(rng, kind=None):
     if kind == 6:
         # literals that look like syntax: punctuation next to blanks, comment signs, keywords
         s = rng.choice([" ;", "a ; b", "x ;", "; ", "{ }", " { ", " #c", "# x", "set", " set uri ", "}", ";;", "  ", "a  b", "print;",
+                        # literals that span lines (raw line breaks and tabs inside the quotes denote themselves)
+                        "line1\nline2", "a\r\nb", "\n", "\tx\n", "GET /x\nHost: h\n\n", "# c\n;",
                         None, None, None])
         if s is None:
             # escaped quotes / backslashes at the edges of the literal
@@ -35,7 +37,7 @@ def literal(rng, kind=None):
         elif c == 3:
             out += "'"; val.append(39)
         elif c == 4:
-            ch = rng.choice("{};#"); out += ch; val.append(ord(ch))
+            ch = rng.choice("{};#\n\t"); out += ch; val.append(ord(ch))
         else:
             ch = rng.choice("abcdefXYZ0123456789 =/"); out += ch; val.append(ord(ch))
     return out + '"', bytes(val)
